@@ -4,6 +4,7 @@ package main
 // upgrade merge). Shared by the properties they serve.
 
 const kAu = `\(x/auth/keeper\.Keeper\)\.`
+const kKk = `\(x/pocketcore/keeper\.Keeper\)\.`
 
 // moduleSendDirections (C17, C18, C26): the module-account send helpers move from the named sender to the
 // named recipient — not the other way round — and the balance setter persists what it set.
@@ -168,4 +169,57 @@ func nodesUnstakeLifecycle(c *Ctx, P string) []Obligation {
 		c.edgeMust(P, "nodes.release.every-waiting-node-leaves-the-set", "(x/nodes/keeper.Keeper).ReleaseWaitingValidators", `^lt\(\(phi:rangeindex \+ 1\), builtin\.len\(`+kN+`GetWaitingValidators\(k, ctx\)\)\)$`, true, `^`+kN+`DeleteWaitingValidator\(k, ctx, `+w+`\.Address\)`, 1, "and every released node leaves the waiting set (it is not released again at the next boundary)"),
 	)
 	return out
+}
+
+// powerRankKeyLayout (C21): prefix byte | 8 bytes big-endian power | address, bitwise inverted.
+func powerRankKeyLayout(c *Ctx, P string) []Obligation {
+	f := "x/nodes/types.getStakedValPowerRankKey"
+	pw := `&var:makeslice\[:8\]`
+	return c.Rows([]Row{
+		{Prop: P, ID: "powerindex.key-power-placed-after-prefix", Fn: f, Barrier: []string{`^builtin\.copy\(makeslice<\[\]byte>\[1:\(builtin\.len\(` + pw + `\) \+ 1\)\], ` + pw + `\)`}, Target: TargetAnyReturn(), Why: "the power bytes follow the prefix byte"},
+		{Prop: P, ID: "powerindex.key-address-placed-last", Fn: f, Barrier: []string{`^builtin\.copy\(makeslice<\[\]byte>\[\(builtin\.len\(` + pw + `\) \+ 1\):\], types\.CopyBytes\(validator\.Address\)\)`}, Target: TargetAnyReturn(), Why: "the (inverted) address of the record itself follows the power"},
+		{Prop: P, ID: "powerindex.key-only-those-parts", Fn: f, Target: CallTo(`^builtin\.copy\(`).Except(`^builtin\.copy\(makeslice<\[\]byte>\[(1:\(builtin\.len\(` + pw + `\) \+ 1\)\], ` + pw + `|\(builtin\.len\(` + pw + `\) \+ 1\):\], types\.CopyBytes\(validator\.Address\))\)$`), Why: "nothing else is copied into the key"},
+		{Prop: P, ID: "powerindex.key-is-the-buffer-built", Fn: f, Target: RetNotMatch(0, `^makeslice<\[\]byte>$`), Why: "the key returned is the buffer that was filled"},
+	})
+}
+
+// claimStorage (C32): a claim is stored under its own key with an expiration counted from the block it was
+// accepted in.
+func claimStorage(c *Ctx, P string) []Obligation {
+	f := "(x/pocketcore/keeper.Keeper).SetClaim"
+	sctx := `invoke types\.Ctx\.PrevCtx\(ctx, var:msg\.SessionHeader\.SessionBlockHeight\)#0`
+	key := `x/pocketcore/types\.KeyForClaim\(ctx, var:msg\.FromAddress, var:msg\.SessionHeader, var:msg\.EvidenceType\)#0`
+	return c.Rows([]Row{
+		{Prop: P, ID: "claim.store.expiration-from-acceptance-height", Fn: f,
+			Target: StoreTo(`^var:msg\.ExpirationHeight$`).ExceptVal(`^\(invoke types\.Ctx\.BlockHeight\(ctx\) \+ \(` + kKk + `ClaimExpiration\(k, ` + sctx + `\) \* ` + kKk + `BlocksPerSession\(k, ` + sctx + `\)\)\)$`),
+			Why:    "a claim expires ClaimExpiration sessions (of the session's own length) after the height it was accepted at"},
+		{Prop: P, ID: "claim.store.key-then-value", Fn: f,
+			Target: CallTo(`^invoke types\.KVStore\.Set\(`).Except(`^invoke types\.KVStore\.Set\(invoke types\.Ctx\.KVStore\(ctx, k\.storeKey\), ` + key + `, \(\*codec\.Codec\)\.MarshalBinaryBare\(k\.Cdc, &var:msg, invoke types\.Ctx\.BlockHeight\(ctx\)\)#0\)$`),
+			Why:    "the encoded claim is the value, the claim's own key (address, header, evidence type) is the key"},
+		{Prop: P, ID: "claim.store.expiration-set-before-encoding", Fn: f, Assume: []Lit{T(`^eq\(0, var:msg\.ExpirationHeight\)$`)}, Barrier: []string{`store:^var:msg\.ExpirationHeight = `}, Target: CallTo(`MarshalBinaryBare\(`), TargetMustExist: true, Why: "a claim that has no expiration yet gets one before it is encoded and stored"},
+	})
+}
+
+// entropyHeight (C31): the block hash that selects the leaf is the one at session height + window * session length.
+func entropyHeight(c *Ctx, P string) []Obligation {
+	return c.Rows([]Row{
+		{Prop: P, ID: "index.entropy-height", Fn: "(x/pocketcore/keeper.Keeper).getPseudorandomIndex",
+			Target: CallTo(`^invoke types\.Ctx\.GetPrevBlockHash\(`).Except(`^invoke types\.Ctx\.GetPrevBlockHash\(ctx, \(header\.SessionBlockHeight \+ \(` + kKk + `ClaimSubmissionWindow\(k, sessionCtx\) \* ` + kKk + `BlocksPerSession\(k, sessionCtx\)\)\)\)$`),
+			Why:    "the selecting hash is that of the block at session height plus the claim-submission window (in sessions of the session's own length)"},
+		{Prop: P, ID: "index.generator-is-hash-and-header", Fn: "(x/pocketcore/keeper.Keeper).getPseudorandomIndex",
+			Target: StoreTo(`^var:pseudoGenerator\.(BlockHash|Header)$`).ExceptVal(`^encoding/hex\.EncodeToString\(invoke types\.Ctx\.GetPrevBlockHash\(.*\)#0\)$|^\(x/pocketcore/types\.SessionHeader\)\.HashString\(header\)$`),
+			Why:    "the generator is made of that block hash and this session header"},
+		{Prop: P, ID: "index.selection-over-the-claimed-count", Fn: "(x/pocketcore/keeper.Keeper).getPseudorandomIndex",
+			Target: CallTo(`PseudorandomSelection\(`).Except(`^x/pocketcore/types\.PseudorandomSelection\(types\.NewInt\(totalRelays\), x/pocketcore/types\.Hash\(encoding/json\.Marshal\(var:pseudoGenerator\)#0\)\)$`),
+			Why:    "the index is drawn below the claimed relay count from the hash of the generator"},
+	})
+}
+
+// proofIsRecorded (C34): storing a proof adds it to the evidence fetched and writes that evidence back.
+func proofIsRecorded(c *Ctx, P string) []Obligation {
+	f := "x/pocketcore/types.SetProof"
+	return c.Rows([]Row{
+		{Prop: P, ID: "setproof.adds-the-proof", Fn: f, Barrier: []string{`^\(\*x/pocketcore/types\.Evidence\)\.AddProof\(&var:evidence, p\)`}, Target: CallTo(`^x/pocketcore/types\.SetEvidence\(`), TargetMustExist: true, Why: "the evidence written back contains the new proof"},
+		{Prop: P, ID: "setproof.writes-the-evidence-back", Fn: f, Barrier: []string{`^x/pocketcore/types\.SetEvidence\(var:evidence, evidenceStore\)`}, Target: TargetAnyReturn(), Why: "and it is written back to the same store"},
+	})
 }
